@@ -154,6 +154,14 @@ def family_options(m, tier, add_bench, open_mod, close_mod):
     add_bench(m, g, 8, "threads_dup", form="bencher", options=[("threads", "[2, 1, 2, 1]"), ("sample_count", "2")])
     add_bench(m, g, 8, "threads_zero_and_n", form="bencher", options=[("threads", "[0, 0]"), ("sample_count", "1"), ("sample_size", "1")])
     add_bench(m, g, 8, "local_with_threads", form="bencher", bencher_style="bench_local", options=[("threads", "4"), ("sample_count", "3")])
+    # 0 and the explicit available parallelism name the same count; an explicitly empty list means one thread
+    add_bench(m, g, 8, "threads_zero_and_explicit_n", form="bencher", options=[("threads", "[0, crate::rt::ncpu()]"), ("sample_count", "1"), ("sample_size", "1")])
+    add_bench(m, g, 8, "threads_n_zero_one", form="bencher", options=[("threads", "[crate::rt::ncpu(), 0, 1]"), ("sample_count", "2"), ("sample_size", "1")])
+    add_bench(m, g, 8, "threads_empty", form="bencher", options=[("threads", "[]"), ("sample_count", "2")])
+    add_bench(m, g, 8, "threads_empty_args", args="strs", options=[("threads", "[]"), ("sample_count", "1")])
+    ge = open_mod(m, g, 8, "empty_threads_group", group={"options": [("threads", "[]")]})
+    add_bench(m, ge, 12, "inherits_empty", form="bencher")
+    close_mod(m, 8)
     close_mod(m, 4)
     close_mod(m, 0)
 
